@@ -194,6 +194,7 @@ type Blocked struct {
 	Callee   string   `json:"on,omitempty"`
 	State    string   `json:"state,omitempty"`
 	WaitsFor []string `json:"waits_for,omitempty"`
+	Victims  int      `json:"other_goroutines_queued_on_the_same_lock,omitempty"`
 	Stack    []string `json:"stack,omitempty"`
 	Related  []string `json:"related_stacks,omitempty"`
 }
@@ -234,24 +235,26 @@ func analyseBlocked(dump, gid string) Blocked {
 		if g.id == gid {
 			continue
 		}
-		hit := false
+		// innermost repository frame of g that has the same receiver as a frame of the blocked caller
+		hit := ""
 		for _, f := range g.frames {
 			if strings.HasPrefix(f.fn, repoPrefix) && ptrs[firstArg(f.args)] {
-				hit = true
+				hit = shortFn(f.fn)
+				break
 			}
 		}
-		if !hit {
+		if hit == "" {
 			continue
 		}
-		in, cal, out, _ := g.where()
-		s := out
-		if in != out {
-			s += ":" + in
+		// goroutines queueing for the same lock as the caller are fellow victims, not what it waits for
+		_, cal, _, _ := g.where()
+		if cal == callee && strings.Contains(cal, "Lock") {
+			b.Victims++
+			continue
 		}
-		s += ">" + cal
-		if !seen[s] {
-			seen[s] = true
-			b.WaitsFor = append(b.WaitsFor, s)
+		if !seen[hit] {
+			seen[hit] = true
+			b.WaitsFor = append(b.WaitsFor, hit)
 			if len(b.Related) < 4 {
 				var sb strings.Builder
 				fmt.Fprintf(&sb, "goroutine %s %s\n", g.id, g.state)
